@@ -331,7 +331,7 @@ class ScalarToFile(Module):
         # Add all signals
         for s in self.sig_in:
             if np.size(np.asarray(s.state)) > 1:
-                it = np.nditer(s.state, flags=['multi_index'])
+                it = np.nditer(s.state, flags=['multi_index'], order='C')  # Fixed order, irrespective of memory layout
                 while not it.finished:
                     dat.append(it.value.__format__(self.format))
                     if tags is not None:
